@@ -356,20 +356,47 @@ func faultConfirm(nOf func(ic *IC) int) func(ic *IC, ob *exec.Obligation) *Viola
 		fj, _ := json.MarshalIndent(map[string]any{"fault_case": fc, "model": ob.Model, "label": ob.Label}, "", " ")
 		os.WriteFile(filepath.Join(dir, "case.json"), fj, 0o644)
 		os.WriteFile(filepath.Join(dir, "replay.sh"), []byte(fmt.Sprintf("#!/bin/sh\n# re-runs the real CLI under the recorded faults (needs the engine binary)\ncd %s && ./check %s --replay %s\n", env.VerifDir, prop, dir)), 0o755)
-		findings, tr, err := env.runFaultCase(fc)
-		if err != nil {
-			v.Detail = "fault replay could not run: " + err.Error()
-			return v
-		}
-		os.WriteFile(filepath.Join(dir, "replay.out"), []byte(tr), 0o644)
-		for _, f := range findings {
-			for _, p := range append([]string{prop}, v.Props...) {
-				if strings.HasPrefix(f, p+":") {
-					v.Confirmed = true
+		// a call outside the allowed mutations (or with another target) shows on disk only when the run
+		// takes the path that leaves its trace: besides the model's own schedule, the neighbouring
+		// real-fault schedules are tried (the -out path is a directory / its parent is a file / Remove fails)
+		variants := []*FaultCase{fc}
+		if prop == "C18" || contains(v.Props, "C18") {
+			for _, mod := range []func(*FaultCase){
+				func(x *FaultCase) { x.WriteCase = 1 },
+				func(x *FaultCase) { x.MkdirFails = true },
+				func(x *FaultCase) { x.Rm, x.RemoveCase = true, 2 },
+				func(x *FaultCase) { x.MockFails = true },
+			} {
+				cp := *fc
+				cp.Out = true
+				if cp.N < 2 {
+					cp.N = 2
 				}
+				mod(&cp)
+				variants = append(variants, &cp)
 			}
 		}
-		v.Detail = short(tr, 700)
+		var all strings.Builder
+		for _, vc := range variants {
+			findings, tr, err := env.runFaultCase(vc)
+			if err != nil {
+				v.Detail = "fault replay could not run: " + err.Error()
+				continue
+			}
+			fmt.Fprintf(&all, "--- fault schedule %+v ---\n%s\n", *vc, tr)
+			for _, f := range findings {
+				for _, p := range append([]string{prop}, v.Props...) {
+					if strings.HasPrefix(f, p+":") {
+						v.Confirmed = true
+					}
+				}
+			}
+			if v.Confirmed {
+				break
+			}
+		}
+		os.WriteFile(filepath.Join(dir, "replay.out"), []byte(all.String()), 0o644)
+		v.Detail = short(all.String(), 900)
 		return v
 	}
 }
